@@ -443,3 +443,348 @@ Proof.
     apply alookup_in in E2. apply (Permutation_in _ (Permutation_sym P)) in E2.
     apply (in_alookup _ _ _ ND) in E2. congruence.
 Qed.
+
+(* ------------------------------------------------------------------ white space: strings.TrimSpace *)
+Lemma bytes_ind_len (P : bytes -> Prop) :
+  (forall s, (forall t, List.length t < List.length s -> P t) -> P s) -> forall s, P s.
+Proof.
+  intros H s. assert (G : forall n t, List.length t < n -> P t).
+  { induction n as [|n IH]; intros t Ht; [lia|]. apply H. intros u Hu. apply IH. lia. }
+  apply (G (S (List.length s))). lia.
+Qed.
+
+Definition head_ascii (s : bytes) : bool := match s with [] => true | c :: _ => is_ascii c end.
+Definition all_space (s : bytes) : Prop := Forall (fun c => is_space c = true) s.
+Definition no_space (s : bytes) : Prop := forall c, In c s -> is_space c = false.
+
+Lemma is_space_ascii c : is_space c = true -> is_ascii c = true.
+Proof. unfold is_space, is_ascii. cbv zeta. lia. Qed.
+
+(* every byte of a [p2]/[p3] sequence is >= 128 *)
+Definition seq_nonascii (p2 : ascii -> ascii -> bool) (p3 : ascii -> ascii -> ascii -> bool) : Prop :=
+  (forall a b, p2 a b = true -> is_ascii a = false /\ is_ascii b = false) /\
+  (forall a b c, p3 a b c = true -> is_ascii a = false /\ is_ascii b = false /\ is_ascii c = false).
+
+Lemma usp_nonascii : seq_nonascii usp2 usp3.
+Proof. split; intros *; unfold usp2, usp3, is_ascii; cbv zeta; lia. Qed.
+Lemma uspr_nonascii : seq_nonascii usp2r usp3r.
+Proof. split; intros *; unfold usp2r, usp3r, usp2, usp3, is_ascii; cbv zeta; lia. Qed.
+
+Section TrimU.
+  Variables (p2 : ascii -> ascii -> bool) (p3 : ascii -> ascii -> ascii -> bool).
+  Notation tl_u := (trim_left_u p2 p3).
+
+  (* nothing can be stripped at the left end *)
+  Definition lstuck (s : bytes) : bool :=
+    match s with [] => true | c :: _ => negb (is_space c) && negb (uprefix p2 p3 s) end.
+
+  Lemma trim_left_u_split s : exists w, s = w ++ tl_u s.
+  Proof.
+    induction s as [s IH] using bytes_ind_len. destruct s as [|c r]; [exists []; reflexivity|].
+    cbn [trim_left_u]. destruct (is_space c).
+    { destruct (IH r) as [w E]; [cbn [List.length]; lia|]. exists (c :: w). cbn [app]. f_equal. exact E. }
+    destruct r as [|c2 r2]; [exists []; reflexivity|]. destruct (p2 c c2).
+    { destruct (IH r2) as [w E]; [cbn [List.length]; lia|]. exists (c :: c2 :: w). cbn [app]. do 2 f_equal. exact E. }
+    destruct r2 as [|c3 r3]; [exists []; reflexivity|]. destruct (p3 c c2 c3).
+    { destruct (IH r3) as [w E]; [cbn [List.length]; lia|]. exists (c :: c2 :: c3 :: w). cbn [app]. do 3 f_equal. exact E. }
+    exists []. reflexivity.
+  Qed.
+
+  Lemma trim_left_u_length s : List.length (tl_u s) <= List.length s.
+  Proof.
+    destruct (trim_left_u_split s) as [w E]. rewrite E at 2. rewrite app_length. lia.
+  Qed.
+
+  Lemma trim_left_u_len_fix s : List.length (tl_u s) = List.length s -> tl_u s = s.
+  Proof.
+    intros H. destruct (trim_left_u_split s) as [w E].
+    assert (L : List.length s = List.length w + List.length (tl_u s)) by (rewrite E at 1; apply app_length).
+    destruct w as [|x w]; [symmetry; exact E|]. cbn [List.length] in L. lia.
+  Qed.
+
+  Lemma lstuck_fix s : lstuck s = true -> tl_u s = s.
+  Proof.
+    intros H. destruct s as [|c [|c2 [|c3 r3]]]; cbn [lstuck uprefix trim_left_u] in *;
+      try reflexivity; destruct (is_space c); cbn [negb andb orb] in H; try discriminate; try reflexivity;
+      destruct (p2 c c2); cbn [negb andb orb] in H; try discriminate; try reflexivity;
+      destruct (p3 c c2 c3); cbn [negb andb orb] in H; try discriminate; reflexivity.
+  Qed.
+
+  Lemma trim_left_u_lstuck s : lstuck (tl_u s) = true.
+  Proof.
+    induction s as [s IH] using bytes_ind_len. destruct s as [|c r]; [reflexivity|].
+    cbn [trim_left_u]. destruct (is_space c) eqn:Ec; [apply IH; cbn [List.length]; lia|].
+    destruct r as [|c2 r2]; [cbn [lstuck uprefix]; rewrite Ec; reflexivity|].
+    destruct (p2 c c2) eqn:E2; [apply IH; cbn [List.length]; lia|].
+    destruct r2 as [|c3 r3]; [cbn [lstuck uprefix]; rewrite Ec, E2; reflexivity|].
+    destruct (p3 c c2 c3) eqn:E3; [apply IH; cbn [List.length]; lia|].
+    cbn [lstuck uprefix]. rewrite Ec, E2, E3. reflexivity.
+  Qed.
+
+  Lemma lstuck_of_fix s : tl_u s = s -> lstuck s = true.
+  Proof. intros H. rewrite <- H. apply trim_left_u_lstuck. Qed.
+
+  Lemma trim_left_u_idem s : tl_u (tl_u s) = tl_u s.
+  Proof. apply lstuck_fix, trim_left_u_lstuck. Qed.
+
+  Lemma lstuck_prefix a b : lstuck (a ++ b) = true -> lstuck a = true.
+  Proof.
+    intros H. destruct a as [|c [|c2 [|c3 r3]]]; cbn [app lstuck uprefix] in *; try reflexivity; try exact H.
+    - destruct (is_space c); [destruct b; discriminate H|reflexivity].
+    - destruct (is_space c); [discriminate H|]. cbn [negb andb] in *.
+      destruct (p2 c c2); [discriminate H|reflexivity].
+  Qed.
+
+  Lemma trim_left_u_blank pad s : all_space pad -> tl_u (pad ++ s) = tl_u s.
+  Proof.
+    intros H. induction H as [|c pad Hc Hp IH]; [reflexivity|].
+    cbn [app trim_left_u]. rewrite Hc. exact IH.
+  Qed.
+
+  Lemma trim_left_u_all_blank pad : all_space pad -> tl_u pad = [].
+  Proof. intros H. rewrite <- (app_nil_r pad), trim_left_u_blank by exact H. reflexivity. Qed.
+
+  Lemma trim_left_u_sp c s : is_space c = true -> tl_u (c :: s) = tl_u s.
+  Proof. intros H. cbn [trim_left_u]. rewrite H. reflexivity. Qed.
+
+  Hypothesis NA : seq_nonascii p2 p3.
+
+  Lemma p2_ascii_l a b : is_ascii a = true -> p2 a b = false.
+  Proof. intros H. destruct (p2 a b) eqn:E; [|reflexivity]. destruct (proj1 NA a b E). congruence. Qed.
+  Lemma p2_ascii_r a b : is_ascii b = true -> p2 a b = false.
+  Proof. intros H. destruct (p2 a b) eqn:E; [|reflexivity]. destruct (proj1 NA a b E). congruence. Qed.
+  Lemma p3_ascii_1 a b c : is_ascii a = true -> p3 a b c = false.
+  Proof. intros H. destruct (p3 a b c) eqn:E; [|reflexivity]. destruct (proj2 NA a b c E) as (?&?&?). congruence. Qed.
+  Lemma p3_ascii_2 a b c : is_ascii b = true -> p3 a b c = false.
+  Proof. intros H. destruct (p3 a b c) eqn:E; [|reflexivity]. destruct (proj2 NA a b c E) as (?&?&?). congruence. Qed.
+  Lemma p3_ascii_3 a b c : is_ascii c = true -> p3 a b c = false.
+  Proof. intros H. destruct (p3 a b c) eqn:E; [|reflexivity]. destruct (proj2 NA a b c E) as (?&?&?). congruence. Qed.
+
+  Lemma uprefix_head_ascii s : head_ascii s = true -> uprefix p2 p3 s = false.
+  Proof.
+    destruct s as [|c [|c2 [|c3 r]]]; cbn [head_ascii uprefix]; intros H; try reflexivity.
+    - rewrite p2_ascii_l by exact H. reflexivity.
+    - rewrite p2_ascii_l, p3_ascii_1 by exact H. reflexivity.
+  Qed.
+
+  (* where the ASCII trim stops at an ASCII byte (or at the end), the Unicode trim stops too *)
+  Lemma trim_left_u_ascii s : head_ascii (trim_left s) = true -> tl_u s = trim_left s.
+  Proof.
+    induction s as [|c r IH]; [reflexivity|]. cbn [trim_left trim_left_u].
+    destruct (is_space c) eqn:Ec; [exact IH|]. cbn [head_ascii]. intros H.
+    destruct r as [|c2 r2]; [reflexivity|]. rewrite p2_ascii_l by exact H.
+    destruct r2 as [|c3 r3]; [reflexivity|]. rewrite p3_ascii_1 by exact H. reflexivity.
+  Qed.
+
+  (* ASCII blanks after a non-empty stuck string do not complete a sequence *)
+  Lemma lstuck_app_blank v pad : v <> [] -> lstuck v = true -> all_space pad -> lstuck (v ++ pad) = true.
+  Proof.
+    intros Hne Hv Hp.
+    assert (A : forall d, In d pad -> is_ascii d = true).
+    { intros d Hd. apply is_space_ascii. unfold all_space in Hp. rewrite Forall_forall in Hp. exact (Hp d Hd). }
+    destruct v as [|c [|c2 [|c3 r3]]]; [contradiction| | |exact Hv]; cbn [app lstuck uprefix] in *.
+    - destruct (is_space c); [discriminate Hv|]. cbn [negb andb].
+      destruct pad as [|d [|e pad]]; [reflexivity| |].
+      + rewrite p2_ascii_r by (apply A; left; reflexivity). reflexivity.
+      + rewrite p2_ascii_r, p3_ascii_2 by (apply A; left; reflexivity). reflexivity.
+    - destruct (is_space c); [discriminate Hv|]. cbn [negb andb] in *.
+      destruct (p2 c c2); [discriminate Hv|]. cbn [orb].
+      destruct pad as [|d pad]; [reflexivity|].
+      rewrite p3_ascii_3 by (apply A; left; reflexivity). reflexivity.
+  Qed.
+End TrimU.
+
+(* ---- strings.TrimSpace ---- *)
+Lemma trim_left_go_split s : exists w, s = w ++ trim_left_go s.
+Proof. apply trim_left_u_split. Qed.
+Lemma trim_right_go_split s : exists w, s = trim_right_go s ++ w.
+Proof.
+  unfold trim_right_go, trim_left_go_r. destruct (trim_left_u_split usp2r usp3r (rev s)) as [w E].
+  exists (rev w). rewrite <- rev_app_distr, <- E, rev_involutive. reflexivity.
+Qed.
+(* TrimSpace only removes a prefix and a suffix *)
+Lemma trim_space_go_split s : exists a b, s = a ++ trim_space_go s ++ b.
+Proof.
+  destruct (trim_left_go_split s) as [a Ea]. destruct (trim_right_go_split (trim_left_go s)) as [b Eb].
+  exists a, b. unfold trim_space_go. rewrite <- Eb. exact Ea.
+Qed.
+Lemma trim_space_go_in c s : In c (trim_space_go s) -> In c s.
+Proof.
+  intros H. destruct (trim_space_go_split s) as (a & b & E). rewrite E.
+  apply in_or_app. right. apply in_or_app. left. exact H.
+Qed.
+Lemma trim_space_go_notin c s : ~ In c s -> ~ In c (trim_space_go s).
+Proof. intros H I. exact (H (trim_space_go_in c s I)). Qed.
+Lemma trim_space_go_length s : List.length (trim_space_go s) <= List.length s.
+Proof.
+  destruct (trim_space_go_split s) as (a & b & E). rewrite E at 2. rewrite !app_length. lia.
+Qed.
+
+Lemma trim_right_go_idem s : trim_right_go (trim_right_go s) = trim_right_go s.
+Proof.
+  unfold trim_right_go, trim_left_go_r. rewrite rev_involutive, trim_left_u_idem. reflexivity.
+Qed.
+
+(* the two fixed-point facts behind idempotence *)
+Lemma trim_space_go_lfix s : trim_left_go (trim_space_go s) = trim_space_go s.
+Proof.
+  unfold trim_space_go. set (a := trim_left_go s).
+  apply lstuck_fix. destruct (trim_right_go_split a) as [w E].
+  apply (lstuck_prefix usp2 usp3 _ w). rewrite <- E. apply trim_left_u_lstuck.
+Qed.
+Lemma trim_space_go_rfix s : trim_right_go (trim_space_go s) = trim_space_go s.
+Proof. unfold trim_space_go. apply trim_right_go_idem. Qed.
+Lemma trim_space_go_idem s : trim_space_go (trim_space_go s) = trim_space_go s.
+Proof. unfold trim_space_go at 1. rewrite trim_space_go_lfix. apply trim_space_go_rfix. Qed.
+
+Lemma trim_space_go_fix_inv s : trim_space_go s = s -> trim_left_go s = s /\ trim_right_go s = s.
+Proof.
+  intros H. rewrite <- H. split; [apply trim_space_go_lfix|apply trim_space_go_rfix].
+Qed.
+Lemma trim_space_go_fix s : trim_left_go s = s -> trim_right_go s = s -> trim_space_go s = s.
+Proof. intros H1 H2. unfold trim_space_go. rewrite H1. exact H2. Qed.
+
+(* leading ASCII white space *)
+Lemma trim_space_go_sp c s : is_space c = true -> trim_space_go (c :: s) = trim_space_go s.
+Proof. intros H. unfold trim_space_go, trim_left_go. rewrite trim_left_u_sp by exact H. reflexivity. Qed.
+Lemma trim_space_go_blank pad s : all_space pad -> trim_space_go (pad ++ s) = trim_space_go s.
+Proof. intros H. unfold trim_space_go, trim_left_go. rewrite trim_left_u_blank by exact H. reflexivity. Qed.
+
+(* ASCII padding around a value without surrounding (Unicode) blanks: TrimSpace yields the value *)
+Lemma trim_space_go_pads lpad v rpad :
+  all_space lpad -> all_space rpad -> trim_space_go v = v -> trim_space_go (lpad ++ v ++ rpad) = v.
+Proof.
+  intros Hl Hr Hv. destruct (trim_space_go_fix_inv v Hv) as [HL HR].
+  rewrite trim_space_go_blank by exact Hl.
+  destruct v as [|c r].
+  - cbn [app]. unfold trim_space_go, trim_left_go. rewrite trim_left_u_all_blank by exact Hr. reflexivity.
+  - unfold trim_space_go.
+    assert (E : trim_left_go ((c :: r) ++ rpad) = (c :: r) ++ rpad).
+    { apply lstuck_fix. apply (lstuck_app_blank _ _ usp_nonascii); [discriminate| |exact Hr].
+      apply lstuck_of_fix. exact HL. }
+    rewrite E. unfold trim_right_go, trim_left_go_r. rewrite rev_app_distr.
+    rewrite trim_left_u_blank by (apply Forall_rev; exact Hr). exact HR.
+Qed.
+
+(* ---- agreement with the ASCII trim ---- *)
+Lemma trim_left_nonblank_snoc x c : is_space c = false -> trim_left (x ++ [c]) = trim_left x ++ [c].
+Proof.
+  intros H. induction x as [|d x IH]; cbn [app trim_left]; [rewrite H; reflexivity|].
+  destruct (is_space d); [exact IH|reflexivity].
+Qed.
+Lemma trim_left_head_nonblank s : match trim_left s with c :: _ => is_space c = false | [] => True end.
+Proof.
+  induction s as [|c r IH]; cbn [trim_left]; [exact I|].
+  destruct (is_space c) eqn:E; [exact IH|exact E].
+Qed.
+(* the ASCII trim of the right end never touches the first byte the left trim stopped at *)
+Lemma trim_space_head s : head_ascii (trim_space s) = head_ascii (trim_left s).
+Proof.
+  unfold trim_space, trim_right. pose proof (trim_left_head_nonblank s) as H.
+  destruct (trim_left s) as [|c r]; [reflexivity|].
+  cbn [rev]. rewrite trim_left_nonblank_snoc by exact H. rewrite rev_app_distr. reflexivity.
+Qed.
+
+(* sufficient condition: where the ASCII trim stops, at either end, there is an ASCII byte
+   (or nothing is left) *)
+Theorem trim_space_go_eq s :
+  head_ascii (trim_space s) = true -> head_ascii (rev (trim_space s)) = true ->
+  trim_space_go s = trim_space s.
+Proof.
+  intros H1 H2. rewrite trim_space_head in H1.
+  unfold trim_space_go, trim_left_go. rewrite (trim_left_u_ascii _ _ usp_nonascii) by exact H1.
+  unfold trim_space, trim_right in *. rewrite rev_involutive in H2.
+  unfold trim_right_go, trim_left_go_r. rewrite (trim_left_u_ascii _ _ uspr_nonascii) by exact H2.
+  reflexivity.
+Qed.
+
+Lemma head_ascii_all s : Forall (fun c => is_ascii c = true) s -> head_ascii s = true.
+Proof. intros H. destruct H; [reflexivity|assumption]. Qed.
+Lemma trim_left_suffix_all (P : ascii -> Prop) s : Forall P s -> Forall P (trim_left s).
+Proof.
+  intros H. induction H as [|c r Hc Hr IH]; cbn [trim_left]; [constructor|].
+  destruct (is_space c); [exact IH|constructor; assumption].
+Qed.
+Theorem trim_space_go_ascii s : Forall (fun c => is_ascii c = true) s -> trim_space_go s = trim_space s.
+Proof.
+  intros H.
+  assert (A : Forall (fun c => is_ascii c = true) (trim_space s)).
+  { unfold trim_space, trim_right. apply Forall_rev, trim_left_suffix_all, Forall_rev, trim_left_suffix_all, H. }
+  apply trim_space_go_eq; apply head_ascii_all; [exact A|apply Forall_rev, A].
+Qed.
+
+(* a string without ASCII white space that neither begins nor ends with a Unicode space is
+   left alone *)
+Theorem trim_space_go_nospace s :
+  no_space s -> starts_with_uspace s = false -> ends_with_uspace s = false -> trim_space_go s = s.
+Proof.
+  intros N S E. apply trim_space_go_fix.
+  - apply lstuck_fix. unfold lstuck. destruct s as [|c r]; [reflexivity|].
+    rewrite (N c (or_introl eq_refl)). unfold starts_with_uspace in S. rewrite S. reflexivity.
+  - unfold trim_right_go, trim_left_go_r. rewrite lstuck_fix; [apply rev_involutive|].
+    unfold lstuck. unfold ends_with_uspace in E. destruct (rev s) as [|c r] eqn:R; [reflexivity|].
+    rewrite E. rewrite (N c); [reflexivity|]. apply in_rev. rewrite R. left. reflexivity.
+Qed.
+Lemma starts_with_uspace_ascii s : head_ascii s = true -> starts_with_uspace s = false.
+Proof. apply uprefix_head_ascii, usp_nonascii. Qed.
+Lemma ends_with_uspace_ascii s : head_ascii (rev s) = true -> ends_with_uspace s = false.
+Proof. apply uprefix_head_ascii, uspr_nonascii. Qed.
+(* necessity: a string ending with a Unicode space is shortened *)
+Lemma trim_space_go_ends s : ends_with_uspace s = true -> trim_space_go s <> s.
+Proof.
+  intros E H. destruct (trim_space_go_fix_inv s H) as [_ HR].
+  unfold trim_right_go, trim_left_go_r in HR.
+  assert (L : lstuck usp2r usp3r (rev s) = true).
+  { apply lstuck_of_fix. rewrite <- HR at 2. rewrite rev_involutive. reflexivity. }
+  unfold lstuck in L. unfold ends_with_uspace in E. destruct (rev s); [discriminate E|].
+  rewrite E in L. destruct (is_space a); discriminate L.
+Qed.
+
+(* examples (checked against go1.23 strings.TrimSpace, see the validation table in DESIGN) *)
+Example trim_space_go_ex1 :
+  trim_space_go (map ascii_of_nat [194;160;97;98;99;226;128;131;32;227;128;128]) = s2b "abc".
+Proof. vm_compute. reflexivity. Qed.
+Example trim_space_go_ex2 :    (* a lone A0, a lone C2 and U+200B are not white space *)
+  trim_space_go (map ascii_of_nat [160]) = map ascii_of_nat [160] /\
+  trim_space_go (map ascii_of_nat [97;194;160;194]) = map ascii_of_nat [97;194;160;194] /\
+  trim_space_go (map ascii_of_nat [226;128;139]) = map ascii_of_nat [226;128;139].
+Proof. vm_compute. repeat split. Qed.
+
+(* ---- decimal numbers are ASCII and blank-free: TrimSpace leaves them alone ---- *)
+Lemma is_digit_ascii c : is_digit c = true -> is_ascii c = true.
+Proof. unfold is_digit, is_ascii. cbv zeta. lia. Qed.
+Lemma is_digit_not_space c : is_digit c = true -> is_space c = false.
+Proof. unfold is_digit, is_space. cbv zeta. lia. Qed.
+Theorem trim_space_go_ascii_nospace s :
+  Forall (fun c => is_ascii c = true) s -> no_space s -> trim_space_go s = s.
+Proof.
+  intros A N. apply trim_space_go_nospace; [exact N| |].
+  - apply starts_with_uspace_ascii, head_ascii_all, A.
+  - apply ends_with_uspace_ascii, head_ascii_all, Forall_rev, A.
+Qed.
+Lemma itoa_ascii z : Forall (fun c => is_ascii c = true) (itoa z).
+Proof.
+  eapply Forall_impl; [|apply itoa_chars]. intros c [H| ->]; [apply is_digit_ascii, H|reflexivity].
+Qed.
+Lemma itoa_no_space z : no_space (itoa z).
+Proof.
+  intros c I. pose proof (itoa_chars z) as F. rewrite Forall_forall in F.
+  destruct (F c I) as [D| ->]; [apply is_digit_not_space, D|reflexivity].
+Qed.
+Lemma trim_space_go_itoa z : trim_space_go (itoa z) = itoa z.
+Proof. apply trim_space_go_ascii_nospace; [apply itoa_ascii|apply itoa_no_space]. Qed.
+
+Lemma digits_val_ascii s : forall a v, digits_val s a = Some v -> Forall (fun c => is_ascii c = true) s.
+Proof.
+  induction s as [|c r IH]; intros a v H; [constructor|]. cbn [digits_val] in H.
+  destruct (is_digit c) eqn:E; [|discriminate]. constructor; [apply is_digit_ascii, E|exact (IH _ _ H)].
+Qed.
+Lemma atoi_ascii s z : atoi s = Some z -> Forall (fun c => is_ascii c = true) s.
+Proof.
+  unfold atoi. destruct s as [|c r]; [discriminate|]. cbv zeta.
+  destruct (Ascii.eqb c "-" || Ascii.eqb c "+")%bool eqn:Sg.
+  - destruct r as [|d r']; [discriminate|]. destruct (digits_val (d :: r') 0) as [v|] eqn:D; [|discriminate].
+    intros _. constructor; [|exact (digits_val_ascii _ _ _ D)].
+    apply orb_true_iff in Sg. destruct Sg as [Q|Q]; apply Ascii.eqb_eq in Q; subst c; reflexivity.
+  - destruct (digits_val (c :: r) 0) as [v|] eqn:D; [|discriminate]. intros _. exact (digits_val_ascii _ _ _ D).
+Qed.
